@@ -27,7 +27,7 @@ ASSUMPTIONS = [
     "the plug-in namespace is the seam the property prescribes; the repository ships no real cipher",
 ]
 PROBES = ["verifstream2", "slow_agent_time_differs", "set_with_marker", "context_name", "md5", "sha1", "walk_many_exchanges",
-          "priv_pass_differs_from_auth_pass", "configured_context_engine", "key_rotation", "hash_rotation", "agent_clock_ahead", "agent_clock_slow_response_older_than_estimate"]
+          "priv_pass_differs_from_auth_pass", "configured_context_engine", "key_rotation", "hash_rotation", "agent_clock_ahead", "agent_clock_slow_response_older_than_estimate", "padded_plaintext"]
 shrink_lists: List[tuple] = []
 OPS = ["get", "multiget", "getnext", "set", "multiset", "bulkget", "walk"]
 BASE = (1, 3, 6, 1, 2, 1, 7)
@@ -57,7 +57,10 @@ def plan_for(tier: str, seed: int, i: int) -> dict:
             # the agent's clock runs ahead of what the client can estimate (forward step after discovery, inside the window)
             "skew_s": rng.choice([0, 0, 1, 7, 100]),
             # ... or behind it: the agent's clock drifts (runs slower than the client's monotonic estimate)
-            "rate": rng.choice([1.0, 1.0, 0.75, 0.5])}
+            "rate": rng.choice([1.0, 1.0, 0.75, 0.5]),
+            # block-cipher agents pad the plaintext scoped PDU to a multiple of the block size before encrypting
+            # (RFC 3414 8.1.1.2); an exactly inverting plug-in hands the padded plaintext back
+            "pad": rng.choice([0, 0, 1, 7, 8, 15])}
 
 
 def simplify(plan: dict):
@@ -67,6 +70,8 @@ def simplify(plan: dict):
         p = dict(plan); p["engine_cfg"] = b""; yield p
     if plan.get("skew_s"):
         p = dict(plan); p["skew_s"] = 0; yield p
+    if plan.get("pad"):
+        p = dict(plan); p["pad"] = 0; yield p
     if plan.get("rate", 1.0) != 1.0:
         p = dict(plan); p["rate"] = 1.0; yield p
     if plan["delay_s"]:
@@ -87,6 +92,8 @@ def execute(plan: dict) -> dict:
     agent.delay_for = lambda req: 0 if req.get("discovery") else plan["delay_s"] * 1024
     agent.report_ctx_echo = bool(plan.get("ctx_echo"))
     agent.rate = float(plan.get("rate", 1.0))
+    if plan.get("pad"):
+        agent.hook_scoped = lambda req, scoped: scoped if req.get("report") else scoped + bytes([plan["pad"]]) * plan["pad"]
     if plan.get("skew_s"):
         def hook_v3(req: dict, f: dict) -> dict:
             if req.get("discovery") and not getattr(agent, "_stepped", False):
@@ -248,7 +255,7 @@ def execute(plan: dict) -> dict:
         "configured_context_engine": int(bool(plan.get("engine_cfg"))),
         "key_rotation": int(plan.get("rotate") in ("priv_pass", "both")), "hash_rotation": int(plan.get("rotate") in ("hash", "both")),
         "agent_clock_ahead": int(bool(plan.get("skew_s"))),
-        "agent_clock_slow_response_older_than_estimate": int(older),
+        "agent_clock_slow_response_older_than_estimate": int(older), "padded_plaintext": int(bool(plan.get("pad"))),
     }
     counters = dict(w.net.counters)
     counters["encrypt_calls"] = n_enc
